@@ -2,6 +2,8 @@ package rules
 
 import (
 	"fmt"
+	"go/constant"
+	"go/token"
 	"go/types"
 	"golang.org/x/tools/go/ssa"
 	"sort"
@@ -863,36 +865,37 @@ func runRX1(c *load.Ctx, r *report.RuleResult) {
 
 func init() {
 	register(&Rule{ID: "T-apeq", Min: 1, Run: runTApEq,
-		Doc: "two additionalProperties rules are the same rule only if they are of the same mode: AdditionalProperties.IsEqual — the test by which the allOf compiler detects conflicting rules of a child and its parents — interpreted with the two modes, schema types and type names as atoms, answers true only on paths on which it found the modes equal, the schema types equal and the type names equal (otherwise `true` inherited under `false` passes for agreement and one of the two silently wins)"})
+		Doc: "two additionalProperties rules of an allOf child and parent pass for the same rule only if they are of the same mode, schema type and type name: in the allOf compiler function that raises the conflict error, the guards in front of that panic — comparisons of the two rules' Mode() written in place, and calls of a comparison function on the two rules (AdditionalProperties.IsEqual or a helper), interpreted with the two modes, schema types and type names as atoms — together let the no-conflict continuation be reached only after the modes, the schema types and the type names were each found equal (otherwise `true` inherited under `false` passes for agreement and one of the two silently wins)"})
 }
 
-func runTApEq(c *load.Ctx, r *report.RuleResult) {
-	fn := c.Func(pkgConstraint, "AdditionalProperties.IsEqual")
-	apT := namedType(c, pkgConstraint, "AdditionalProperties")
-	if fn == nil || apT == nil {
-		r.Unk("anchor|constraint.AdditionalProperties.IsEqual", "", "not found")
-		return
-	}
-	pos := c.Pos(fn.Pos())
+// apeqCompare interprets a comparison function of two additionalProperties rules and returns the
+// fields every true-answering path found equal.
+func apeqCompare(c *load.Ctx, fn *ssa.Function, apT *types.Named) (enforced map[string]bool, paths, trues int, problems []string) {
 	e := newTableEnv(c)
 	if f := c.Func(pkgBytes, "Bytes.String"); f != nil {
 		e.cfg.Intrinsics[f.String()] = func(in *pe.Interp, args []pe.Value) (pe.Value, bool) {
 			return pe.NewSym(strings.Trim(pe.Show(args[0]), "‹›"), types.Typ[types.String]), true
 		}
 	}
-	mk := func(in *pe.Interp, tag string) pe.Value {
+	mk := func(in *pe.Interp, tag string, t types.Type) pe.Value {
 		st := apT.Underlying().(*types.Struct)
 		sv := &pe.StructV{T: apT, F: make([]pe.Value, st.NumFields())}
 		for i := 0; i < st.NumFields(); i++ {
 			sv.F[i] = pe.NewSym(tag+"."+st.Field(i).Name(), st.Field(i).Type())
 		}
+		if _, isPtr := t.Underlying().(*types.Pointer); isPtr {
+			return &pe.Ptr{Obj: in.NewObj(apT, sv, tag), T: apT}
+		}
 		return sv
 	}
 	outs := pe.ExploreFn(e.cfg, func(in *pe.Interp) pe.Value {
-		return in.Call(fn, []pe.Value{mk(in, "a"), mk(in, "b")})
+		var args []pe.Value
+		for i, p := range fn.Params {
+			args = append(args, mk(in, string(rune('a'+i)), p.Type()))
+		}
+		return in.Call(fn, args)
 	})
-	var problems []string
-	trues := 0
+	enforced = map[string]bool{"mode": true, "schemaType": true, "typeName": true}
 	for _, o := range outs {
 		if o.Undecided != "" || o.Panicked {
 			problems = append(problems, "not interpretable: "+o.Exit())
@@ -908,7 +911,6 @@ func runTApEq(c *load.Ctx, r *report.RuleResult) {
 		}
 		trues++
 		val := o.ChoiceMap()
-		// which fields were found equal on this path
 		equal := map[string]bool{}
 		for k, v := range val {
 			for _, f := range []string{"mode", "schemaType", "typeName"} {
@@ -921,22 +923,226 @@ func runTApEq(c *load.Ctx, r *report.RuleResult) {
 		if val["a.mode"] != "" && val["a.mode"] == val["b.mode"] {
 			equal["mode"] = true
 		}
-		for _, f := range []string{"mode", "schemaType", "typeName"} {
+		for f := range enforced {
 			if !equal[f] {
-				problems = append(problems, fmt.Sprintf("answers true on path {%s} without having found the two rules' %s equal", o.Valuation(), f))
+				delete(enforced, f)
 			}
 		}
 	}
 	if trues == 0 {
 		problems = append(problems, "never answers true")
 	}
-	sort.Strings(problems)
-	if len(problems) > 0 {
-		if len(problems) > 3 {
-			problems = append(problems[:3], fmt.Sprintf("… and %d more", len(problems)-3))
-		}
-		r.Bad("apeq|AdditionalProperties.IsEqual", pos, strings.Join(uniq(problems), "; "))
-	} else {
-		r.OK("apeq|AdditionalProperties.IsEqual", pos, fmt.Sprintf("%d paths, %d answer true, each after finding mode, schema type and type name equal", len(outs), trues))
+	return enforced, len(outs), trues, problems
+}
+
+func runTApEq(c *load.Ctx, r *report.RuleResult) {
+	apT := namedType(c, pkgConstraint, "AdditionalProperties")
+	var conflict *types.Const
+	if p := c.Pkg("errors"); p != nil {
+		conflict, _ = p.Types.Scope().Lookup("ErrConflictAdditionalProperties").(*types.Const)
 	}
+	if apT == nil || conflict == nil {
+		r.Unk("anchor|constraint.AdditionalProperties / errors.ErrConflictAdditionalProperties", "", "not found")
+		return
+	}
+	isAP := func(t types.Type) bool {
+		if p, ok := t.Underlying().(*types.Pointer); ok {
+			t = p.Elem()
+		}
+		return types.Identical(t, apT)
+	}
+	// the panic raising the conflict
+	type site struct {
+		fn *ssa.Function
+		b  *ssa.BasicBlock
+	}
+	var sites []site
+	c.BuildSSA()
+	for _, fn := range c.ModuleFunctions() {
+		if load.FuncPkgRel(fn) != pkgLoader {
+			continue
+		}
+		for _, b := range fn.Blocks {
+			for _, ins := range b.Instrs {
+				pn, ok := ins.(*ssa.Panic)
+				if !ok {
+					continue
+				}
+				v := pn.X
+				if mi, ok := v.(*ssa.MakeInterface); ok {
+					v = mi.X
+				}
+				if k, ok := v.(*ssa.Const); ok && k.Value != nil && types.Identical(k.Type(), conflict.Type()) && constant.Compare(k.Value, token.EQL, conflict.Val()) {
+					sites = append(sites, site{fn, b})
+				}
+			}
+		}
+	}
+	if len(sites) == 0 {
+		r.Unk("anchor|panic(ErrConflictAdditionalProperties)", "", "no function of the loader raises the conflict error")
+		return
+	}
+	for _, s := range sites {
+		key := "apeq|" + load.FuncKey(s.fn)
+		pos := c.Pos(s.fn.Pos())
+		// blocks from which only the panic block is reachable
+		toPanic := map[*ssa.BasicBlock]bool{s.b: true}
+		for changed := true; changed; {
+			changed = false
+			for _, b := range s.fn.Blocks {
+				if toPanic[b] || len(b.Succs) == 0 {
+					continue
+				}
+				all := true
+				for _, su := range b.Succs {
+					if !toPanic[su] {
+						all = false
+					}
+				}
+				if all {
+					toPanic[b] = true
+					changed = true
+				}
+			}
+		}
+		enforced := map[string]bool{}
+		var notes, problems []string
+		guards := 0
+		for _, b := range s.fn.Blocks {
+			if toPanic[b] || len(b.Succs) != 2 {
+				continue
+			}
+			ifi, ok := b.Instrs[len(b.Instrs)-1].(*ssa.If)
+			if !ok || toPanic[b.Succs[0]] == toPanic[b.Succs[1]] {
+				continue
+			}
+			guards++
+			// passOn: the value of the condition on the edge that does not raise the conflict
+			passOn := toPanic[b.Succs[1]]
+			cond := ifi.Cond
+			for {
+				u, ok := cond.(*ssa.UnOp)
+				if !ok || u.Op != token.NOT {
+					break
+				}
+				cond, passOn = u.X, !passOn
+			}
+			switch x := cond.(type) {
+			case *ssa.BinOp:
+				if x.Op != token.EQL && x.Op != token.NEQ {
+					problems = append(problems, "a guard of the conflict is neither a comparison nor a call: "+x.String())
+					continue
+				}
+				fx, fy := apeqField(x.X, isAP), apeqField(x.Y, isAP)
+				if fx == "" || fx != fy {
+					notes = append(notes, "guard "+x.String()+" does not compare a field of the two rules")
+					continue
+				}
+				if (x.Op == token.EQL) == passOn {
+					enforced[fx] = true
+					notes = append(notes, "the two rules' "+fx+" compared in place")
+				} else {
+					problems = append(problems, "the conflict is raised when the two rules' "+fx+" are equal")
+				}
+			case *ssa.Call:
+				g := x.Call.StaticCallee()
+				nAP := 0
+				if g != nil {
+					for _, p := range g.Params {
+						if isAP(p.Type()) {
+							nAP++
+						}
+					}
+				}
+				if g == nil || !load.FuncInModule(g) || nAP != 2 || len(g.Params) != 2 {
+					notes = append(notes, "guard "+x.String()+" is not a comparison of the two rules")
+					continue
+				}
+				if !passOn {
+					problems = append(problems, "the conflict is raised when "+g.Name()+" answers true")
+					continue
+				}
+				enf, paths, trues, probs := apeqCompare(c, g, apT)
+				for _, p := range probs {
+					problems = append(problems, g.Name()+": "+p)
+				}
+				var fs []string
+				for f := range enf {
+					enforced[f] = true
+					fs = append(fs, f)
+				}
+				sort.Strings(fs)
+				notes = append(notes, fmt.Sprintf("%s (%d paths, %d answer true) answers true only after finding equal: %s", g.Name(), paths, trues, strings.Join(fs, ", ")))
+			default:
+				notes = append(notes, "guard "+cond.String()+" is not a comparison of the two rules")
+			}
+		}
+		if guards == 0 {
+			problems = append(problems, "the conflict is raised unconditionally or its guards were not found")
+		}
+		for _, f := range []string{"mode", "schemaType", "typeName"} {
+			if !enforced[f] {
+				problems = append(problems, "the no-conflict continuation is reached without the two rules' "+f+" having been found equal")
+			}
+		}
+		sort.Strings(problems)
+		sort.Strings(notes)
+		if len(problems) > 0 {
+			if len(problems) > 4 {
+				problems = append(problems[:4], fmt.Sprintf("… and %d more", len(problems)-4))
+			}
+			r.Bad(key, pos, strings.Join(uniq(problems), "; ")+" ["+strings.Join(uniq(notes), "; ")+"]")
+		} else {
+			r.OK(key, pos, strings.Join(uniq(notes), "; "))
+		}
+	}
+}
+
+// apeqField names the field of an additionalProperties rule a value is read from: the result of
+// an accessor (Mode, SchemaType, TypeName — possibly through String()) or a field load.
+func apeqField(v ssa.Value, isAP func(types.Type) bool) string {
+	for depth := 0; depth < 6; depth++ {
+		switch x := v.(type) {
+		case *ssa.Call:
+			g := x.Call.StaticCallee()
+			if g == nil || len(x.Call.Args) == 0 {
+				return ""
+			}
+			if isAP(x.Call.Args[0].Type()) && len(x.Call.Args) == 1 {
+				switch g.Name() {
+				case "Mode":
+					return "mode"
+				case "SchemaType":
+					return "schemaType"
+				case "TypeName":
+					return "typeName"
+				}
+				return ""
+			}
+			if g.Name() == "String" {
+				v = x.Call.Args[0]
+				continue
+			}
+			return ""
+		case *ssa.UnOp:
+			v = x.X
+		case *ssa.Field:
+			if isAP(x.X.Type()) {
+				return fieldName(x.X.Type(), x.Field)
+			}
+			return ""
+		case *ssa.FieldAddr:
+			if isAP(x.X.Type()) {
+				return fieldName(x.X.Type(), x.Field)
+			}
+			return ""
+		case *ssa.ChangeType:
+			v = x.X
+		case *ssa.Convert:
+			v = x.X
+		default:
+			return ""
+		}
+	}
+	return ""
 }
